@@ -175,16 +175,14 @@ def build_harness(prop, log):
         shutil.copy(os.path.join(REPO, "go.sum"), os.path.join(HARNESS, "go.sum"))
     except Exception as e:  # noqa
         log.append("cp go.sum: %s" % e)
-    exe = os.path.join(BUILD, "onetharness_" + prop)
-    if os.path.exists(exe):
-        os.remove(exe)
+    exe = os.path.join(BUILD, "onetharness_%s_%d" % (prop, os.getpid()))
     cmd = ["go", "build", "-tags", "verif", "-o", exe]
     if os.path.realpath(REPO) != "/repo":
         # self-test against a scratch worktree: same module file with the replace directive redirected
-        mf = os.path.join(BUILD, "go_%s.mod" % prop)
+        mf = os.path.join(BUILD, "go_%s_%d.mod" % (prop, os.getpid()))
         src = open(os.path.join(HARNESS, "go.mod")).read().replace("=> /repo", "=> " + os.path.realpath(REPO))
         open(mf, "w").write(src)
-        shutil.copy(os.path.join(REPO, "go.sum"), os.path.join(BUILD, "go_%s.sum" % prop))
+        shutil.copy(os.path.join(REPO, "go.sum"), os.path.join(BUILD, "go_%s_%d.sum" % (prop, os.getpid())))
         cmd += ["-modfile", mf]
     rc, out = sh(cmd + ["./cmd/onetharness"], cwd=HARNESS, env=GOENV)
     log.append(out[-4000:])
@@ -192,12 +190,13 @@ def build_harness(prop, log):
 
 
 def run_harness(prop, tier, seed, log, replay=None, tag=""):
-    out = os.path.join(BUILD, "run_%s_%s%s.jsonl" % (prop, tier, tag))
-    work = os.path.join(BUILD, "work_%s" % prop)
+    # per-run names: concurrent runs of the same check must not delete each other's files
+    out = os.path.join(BUILD, "run_%s_%s%s_%d.jsonl" % (prop, tier, tag, os.getpid()))
+    work = os.path.join(BUILD, "work_%s_%d" % (prop, os.getpid()))
     import shutil
     shutil.rmtree(work, ignore_errors=True)
     os.makedirs(work, exist_ok=True)
-    cmd = [os.path.join(BUILD, "onetharness_" + prop), prop.lower(), "seed=%d" % seed, "tier=%s" % tier,
+    cmd = [os.path.join(BUILD, "onetharness_%s_%d" % (prop, os.getpid())), prop.lower(), "seed=%d" % seed, "tier=%s" % tier,
            "out=" + out, "workdir=" + work]
     if replay:
         cmd.append("replay=" + replay)
@@ -210,6 +209,12 @@ def run_harness(prop, tier, seed, log, replay=None, tag=""):
     shutil.rmtree(work, ignore_errors=True)
     cases, stats = [], {}
     if os.path.exists(out):
+        last = os.path.join(BUILD, "run_%s_%s%s.jsonl" % (prop, tier, tag))
+        try:
+            os.replace(out, last)
+            out = last
+        except OSError:
+            pass
         for line in open(out):
             line = line.strip()
             if not line:
@@ -464,6 +469,10 @@ def main():
         for c, diff in results:
             print(json.dumps({"oracle": c.get("oracle"), "sig": c.get("sig"), "msg": c.get("msg"),
                               "impl": c.get("impl"), "model": c.get("model"), "diff": diff}, indent=1))
+    try:
+        os.remove(os.path.join(BUILD, "onetharness_%s_%d" % (prop, os.getpid())))
+    except OSError:
+        pass
     if violations:
         for path, suffix in violations:
             print("VIOLATION property=%s replay=%s%s" % (prop, path, suffix))
